@@ -152,8 +152,12 @@ func (vc *VC) execStmt(s ast.Stmt, st *State, label string) Flow {
 		// arguments are evaluated now; we only support calls whose arguments are side-effect-free
 		return Flow{normal: st}
 	case *ast.GoStmt:
-		vc.outOfSubset = "go statement"
-		return Flow{}
+		// sequential abstraction of a spawn: the goroutine may run at any later time, so from here on every heap
+		// location (including captured variables, which live in memory) is unknown; the spawn itself is a trace event
+		vc.abstraction("go statement (spawn event + havoc of all heaps; the goroutine body is not verified)")
+		vc.emitEvent(st, "Go", nil)
+		vc.havocAll(st, "go statement")
+		return Flow{normal: st}
 	case *ast.SelectStmt:
 		vc.outOfSubset = "select"
 		return Flow{}
